@@ -130,12 +130,12 @@ func runC11(t *testing.T, cases []map[string]interface{}, ev *vEvents) {
 	worlds := make([]*vWorld, nw)
 	for i := range worlds {
 		worlds[i] = newWorld(vWorldOpts{NoDB: true, CertCfg: []string{"IPCertificate"}, WebUICfg: []string{"password"}})
-		worlds[i].st.Config.Base.AutomationUsers = []string{"svc"}
+		worlds[i].st.Config.Base.AutomationUsers = []string{"svc", "svc2"}
 	}
 	worldsPw := make([]*vWorld, nw)
 	for i := range worldsPw {
 		worldsPw[i] = newWorld(vWorldOpts{NoDB: true, CertCfg: []string{"password", "IPCertificate"}, WebUICfg: []string{"password"}})
-		worldsPw[i].st.Config.Base.AutomationUsers = []string{"svc"}
+		worldsPw[i].st.Config.Base.AutomationUsers = []string{"svc", "svc2"}
 	}
 	vParallel(nw, len(cases), func(wk, i int) {
 		w := worlds[wk]
@@ -185,7 +185,10 @@ func runC11(t *testing.T, cases []map[string]interface{}, ev *vEvents) {
 				out["class"] = r.Class()
 				out["cn"] = info.CN
 			case "refresh":
-				r := w.Do(vReq{Method: "POST", Path: refreshRoleRequestingCertPath, Form: url.Values{"pubkey": {vB64u(vKeyByID("p256").der)}},
+				// the request may carry anything else a client likes - e.g. the identity parameter of the issuing endpoint,
+				// naming another configured automation user: a refresh renews what was presented, nothing else
+				r := w.Do(vReq{Method: "POST", Path: refreshRoleRequestingCertPath, Form: url.Values{"pubkey": {vB64u(vKeyByID("p256").der)}, "identity": {"svc2"},
+					"requestor_netblock": {"0.0.0.0/0"}, "target_netblock": {"0.0.0.0/0"}},
 					Chains: w.verifiedChains(cert), Remote: remote, Headers: fwd})
 				info := w.parseIssued(r.Body)
 				out["auth"] = info.Kind != "none"
